@@ -266,12 +266,37 @@ pub fn write_replay(scn: &Scenario, v: &Violation, tier: &str, master: u64, idx:
     Ok(path)
 }
 
+/// Re-execute, on one thread and in order, the runs that the failing run's worker had executed before it
+/// (static striping: worker, worker+W, worker+2W, ...), then the failing run itself.
+fn execute_history(property: &str, tier: &str, master: u64, idx: u64, workers: u64, keep_lines: bool) -> Result<Outcome, String> {
+    let wk = idx % workers.max(1);
+    let mut j = wk;
+    while j < idx {
+        let scn = make_scenario(property, tier, master, j);
+        let _ = execute(&scn, false)?;
+        j += workers.max(1);
+    }
+    let scn = make_scenario(property, tier, master, idx);
+    execute(&scn, keep_lines)
+}
+
 pub fn replay(path: &str) -> Result<i32, String> {
     let text = std::fs::read_to_string(path).map_err(|e| format!("{}: {}", path, e))?;
     let v: Value = serde_json::from_str(&text).map_err(|e| e.to_string())?;
     let scn = Scenario::from_json(v.get("scenario").ok_or("no scenario")?).ok_or("bad scenario")?;
     let oracle = v.get("oracle").and_then(|x| x.as_str()).unwrap_or("").to_string();
-    let out = execute(&scn, true)?;
+    let out = if let Some(h) = v.get("history_replay") {
+        // the violation depends on what the same OS thread executed before this run (state kept inside the
+        // library across operations): replay the worker's whole stripe
+        let workers = h.get("workers").and_then(|x| x.as_u64()).unwrap_or(16);
+        let tier = v.get("tier").and_then(|x| x.as_str()).unwrap_or("quick").to_string();
+        let master = v.get("master_seed").and_then(|x| x.as_u64()).unwrap_or(0);
+        let idx = v.get("run_index").and_then(|x| x.as_u64()).unwrap_or(0);
+        println!("history replay: runs {}, {}, ... up to {} on one thread", idx % workers, idx % workers + workers, idx);
+        execute_history(&scn.property, &tier, master, idx, workers, true)?
+    } else {
+        execute(&scn, true)?
+    };
     if let Some(lines) = &out.trace_lines {
         for l in lines {
             println!("  {}", l);
@@ -341,21 +366,33 @@ pub struct BatchResult {
 }
 
 fn run_batch(property: &str, tier: &str, master: u64, runs: u64, workers: usize, keep_hashes: bool, known: &[Known]) -> BatchResult {
-    let next = AtomicU64::new(0);
+    // Static striping: worker k executes the runs k, k+W, k+2W, ... in that order on its own OS thread. Which
+    // runs share a thread (and hence any thread-local or allocation state inside the library) is therefore a
+    // function of (index, W) alone, and a violation that depends on what the thread did before can be replayed
+    // by re-executing the worker's stripe up to the failing index ("history replay").
+    // `stop_at` = lowest violating index seen so far: every worker finishes all of its runs up to that index, so
+    // the lowest-index violation of the batch is always found, whatever the thread timing.
+    let stop_at = AtomicU64::new(u64::MAX);
     let stop = AtomicBool::new(false);
     let total = Mutex::new(Acc::default());
     let t0 = Instant::now();
+    let nworkers = workers.max(1) as u64;
     std::thread::scope(|s| {
-        for _ in 0..workers {
-            s.spawn(|| {
+        for wk in 0..nworkers {
+            let stop_at = &stop_at;
+            let stop = &stop;
+            let total = &total;
+            s.spawn(move || {
                 let mut acc = Acc::default();
+                let mut j: u64 = 0;
                 loop {
-                    if stop.load(Ordering::Relaxed) {
+                    let idx = wk + j * nworkers;
+                    j += 1;
+                    if idx >= runs || idx > stop_at.load(Ordering::Relaxed) {
                         break;
                     }
-                    let idx = next.fetch_add(1, Ordering::Relaxed);
-                    if idx >= runs {
-                        break;
+                    if stop.load(Ordering::Relaxed) && stop_at.load(Ordering::Relaxed) == u64::MAX {
+                        break; // a harness error stops everything
                     }
                     let scn = make_scenario(property, tier, master, idx);
                     match execute(&scn, false) {
@@ -388,7 +425,7 @@ fn run_batch(property: &str, tier: &str, master: u64, runs: u64, workers: usize,
                                     acc.known_hits.entry(k.id.clone()).or_insert((idx, v.msg.clone()));
                                 } else {
                                     acc.violating.push((idx, v));
-                                    stop.store(true, Ordering::Relaxed);
+                                    stop_at.fetch_min(idx, Ordering::Relaxed);
                                 }
                             }
                         }
@@ -550,7 +587,28 @@ fn run_check(property: &str, tier: &str) -> Result<i32, String> {
                     exit = 1;
                 }
                 None => {
-                    return Err(format!("violation {} at run {} did not reproduce from its replay file {} in five fresh processes", mv.oracle, idx, path));
+                    // last resort: the violation may depend on what the same worker thread executed earlier
+                    // (state that the library keeps across operations). Replay the worker's stripe.
+                    let hist_path = format!("{}/replays/{}-{}-{}-history.json", verif_dir(), property, master, idx);
+                    let j = json!({
+                        "version": 1, "engine": "envsim", "property": property, "oracle": v.oracle, "tier": tier,
+                        "master_seed": master, "run_index": idx, "violation": v.msg, "signature": v.signature,
+                        "history_replay": {"workers": workers() as u64, "worker": idx % workers() as u64,
+                            "why": "the run fails only after the runs that preceded it on the same OS thread: the library carries state from one operation to the next"},
+                        "scenario": scn.to_json(),
+                    });
+                    std::fs::write(&hist_path, serde_json::to_string_pretty(&j).unwrap()).map_err(|e| e.to_string())?;
+                    match confirm_in_fresh_process(&hist_path, &v.oracle)? {
+                        Some(_) => {
+                            println!("violation: oracle={} run={} (reproduces only after the {} runs that preceded it on the same worker thread): {}", v.oracle, idx, idx / workers() as u64, v.msg);
+                            println!("VIOLATION property={} replay={}", property, hist_path);
+                            new_violations += 1;
+                            exit = 1;
+                        }
+                        None => {
+                            return Err(format!("violation {} at run {} did not reproduce from its replay file {} in five fresh processes, nor from the history replay {}", mv.oracle, idx, path, hist_path));
+                        }
+                    }
                 }
             }
         }
